@@ -149,14 +149,17 @@ def corpus_cases():
     yield {'kind': 'corpus', 'srcs': [
         b'x="\\0001"', b'x="\\0145"', b'x="\\x41"', b'x="a\\\r\nb"', b'x="\\15\\0009"', b"y='\\\"\"'", b'x=[[\nk]]',
         b'x="\\\\x41"', b'--c\r\nx', b'"\\256"', b'"', b'x="a\nb"', b's="\\z"', b'a\rb', b'?"hi"\n', b'x="\\65\\066\\x43"',
-        b'a=1 -- \xe2\x99\xa5\r\n', b'', b'\n', b'x']}
+        b'a=1 -- \xe2\x99\xa5\r\n', b'', b'\n', b'x',
+        # byte order marks are ordinary P8SCII glyph bytes (names may consist of them), wherever they stand
+        b'\xef\xbb\xbf = {}\n', b'x=\xef\xbb\xbf+1\n\xef\xbb\xbfy=2', b'\xff\xfe=1 \xfe\xff=2\n', b'a\xef\xbb\xbf=1',
+        b'-- \xef\xbb\xbf\n"\xef\xbb\xbf"']}
 
 
 # ------------------------------------------------------------------ implementation
 def echo_impl(chunks):
     """-> {'err': name} | {'lines': [bytes], 'full': [bytes] | None}"""
     from pico8.lua import lua
-    l = lua.Lua(8)
+    l = lua.Lua(lib.lua_version(chunks))
     try:
         l._lexer.process_lines(list(chunks))
         lines = [bytes(x) for x in lua.LuaEchoWriter(tokens=l._lexer.tokens, root=None, args=None).to_lines()]
